@@ -3,6 +3,7 @@ package main
 // instr.go — symbolic semantics of individual go/ssa instructions.
 
 import (
+	"os"
 	"fmt"
 	"go/token"
 	"go/types"
@@ -15,6 +16,9 @@ import (
 
 func (x *Exec) unsupported(fr *frame, ins ssa.Instruction, st *State, why string) *State {
 	x.note("unmodelled: " + why + " in " + fr.fn.String())
+	if os.Getenv("GOVC_UNSUP_DEBUG") != "" {
+		fmt.Fprintf(os.Stderr, "unmodelled: %s in %s: %s\n", why, fr.fn.String(), ins.String())
+	}
 	x.curTaint = true
 	ws := &WriteSet{Top: true}
 	var n *State
@@ -40,6 +44,13 @@ func (x *Exec) execInstr(fr *frame, ins ssa.Instruction, st *State, reach string
 		pt := t.X.Type().Underlying().(*types.Pointer).Elem()
 		si := x.so.structInfo(pt)
 		if xv.loc != nil && xv.loc.Kind == "field" {
+			l := *xv.loc
+			l.Path = append(append([]FieldStep(nil), l.Path...), FieldStep{si, t.Field})
+			fr.vals[t] = sval{t: "0", loc: &l}
+			return st
+		}
+		if xv.loc != nil && (xv.loc.Kind == "global" || xv.loc.Kind == "elem") {
+			// a field of a struct held in a private cell (a local struct that never escapes) or in an array / slice element
 			l := *xv.loc
 			l.Path = append(append([]FieldStep(nil), l.Path...), FieldStep{si, t.Field})
 			fr.vals[t] = sval{t: "0", loc: &l}
@@ -396,6 +407,54 @@ func (x *Exec) execUnOp(fr *frame, t *ssa.UnOp, st *State, reach string) *State 
 			fr.vals[t] = sval{t: x.define("bnot", "Int", "(- "+hi+" "+xv.t+")")}
 		}
 	case token.ARROW:
+		if x.errflow {
+			// error-flow layer: an error value received from a channel is the outcome of work another
+			// goroutine did for this operation (the in-flight batch write of the importer, the export
+			// goroutine): a non-nil one is a storage failure that this operation now knows about
+			isErr := func(ty types.Type) bool {
+				return types.Identical(ty, types.Universe.Lookup("error").Type())
+			}
+			// (only where the receiving function can report it: a function without an error result that
+			// drains a channel — Importer.Close abandoning an import — is not charged with the failure)
+			canReport := false
+			if rs := x.fn.Signature.Results(); rs != nil {
+				for i := 0; i < rs.Len(); i++ {
+					if isErr(rs.At(i).Type()) {
+						canReport = true
+					}
+				}
+			}
+			if !canReport {
+				isErr = func(types.Type) bool { return false }
+			}
+			n := x.havocHeapKeepGhosts(st, map[string]bool{"fault": true})
+			oldF, newF := st.get("G_fault"), n.get("G_fault")
+			if tup, ok := t.Type().(*types.Tuple); ok && t.CommaOk && isErr(tup.At(0).Type()) {
+				v := x.freshConst("recv", x.so.sortOf(tup.At(0).Type()))
+				okv := x.freshConst("recvok", "Bool")
+				x.assume(reach, "(= "+newF+" (or "+oldF+" (not (= "+v+" 0))))")
+				fr.vals[t] = sval{tup: []sval{{t: v}, {t: okv}}}
+				return n
+			}
+			if isErr(t.Type()) {
+				v := x.freshConst("recv", x.so.sortOf(t.Type()))
+				x.assume(reach, "(= "+newF+" (or "+oldF+" (not (= "+v+" 0))))")
+				fr.vals[t] = sval{t: v}
+				return n
+			}
+			x.assume(reach, "(= "+newF+" "+oldF+")")
+			if tup, ok := t.Type().(*types.Tuple); ok {
+				var vs []sval
+				for i := 0; i < tup.Len(); i++ {
+					vs = append(vs, sval{t: x.freshConst("recv", x.so.sortOf(tup.At(i).Type()))})
+				}
+				fr.vals[t] = sval{tup: vs}
+			} else {
+				fr.vals[t] = sval{t: x.freshConst("recv", x.so.sortOf(t.Type()))}
+			}
+			x.note("channel receive in " + fr.fn.String() + ": value unconstrained")
+			return n
+		}
 		return x.unsupported(fr, t, st, "channel receive")
 	default:
 		return x.unsupported(fr, t, st, "unary "+t.Op.String())
